@@ -932,7 +932,7 @@ Qed.
 
 
 Lemma coerce_out_norm k g : norm (fst (coerce_out k g)) = fst (coerce_out k g).
-Proof. destruct k, g; reflexivity. Qed.
+Proof. destruct k, g; try reflexivity. simpl. destruct (in32b z); reflexivity. Qed.
 
 Lemma rel_if {A B} (R : A -> B -> Prop) path s (b : bool) x1 x2 y1 y2 :
   (b = true -> rel R path s x1 y1) -> (b = false -> rel R path s x2 y2) ->
